@@ -5,3 +5,4 @@
 #include "modules/lmq/spec.h"
 #include "modules/xrespond/env.h"
 #include "modules/xrespond/spec.h"
+size_t g_len0, g_off0, g_cap0; /* ghosts: pre-state body geometry (BT_BODY_GHOSTS) */
